@@ -65,6 +65,110 @@ var harnessRe = regexp.MustCompile(`(?m)^func (zzH_(C\d\d)_\w+)\(`)
 // (exit 2 unless a violation is found), see cmdRun.
 var droppedHarnessFiles = map[string]bool{}
 
+// patchedHarness: real harness file -> path of a copy from which the functions that do not compile against
+// the tree under analysis were cut out (function-level dropping; the file itself is dropped only when cutting
+// does not help). droppedHarnessFuncs lists what was cut, for the report.
+var patchedHarness = map[string]string{}
+var droppedHarnessFuncs []string
+
+// harnessSource returns the path whose content stands for the harness file f.
+func harnessSource(f string) string {
+	if p, ok := patchedHarness[f]; ok {
+		return p
+	}
+	return f
+}
+
+// cutBrokenFuncs removes from harness file `real` every top-level declaration that contains one of the given
+// lines (and unused imports named in errs). It returns false if nothing could be cut.
+func cutBrokenFuncs(real string, lines []int, unusedImports []string) bool {
+	src, err := os.ReadFile(harnessSource(real))
+	if err != nil {
+		return false
+	}
+	fset := token.NewFileSet()
+	f, err := parser.ParseFile(fset, real, src, parser.ParseComments)
+	if err != nil {
+		return false
+	}
+	type span struct{ from, to int }
+	var cuts []span
+	var names []string
+	for _, d := range f.Decls {
+		start := d.Pos()
+		if fd, ok := d.(*ast.FuncDecl); ok && fd.Doc != nil {
+			start = fd.Doc.Pos()
+		}
+		if gd, ok := d.(*ast.GenDecl); ok {
+			if gd.Tok == token.IMPORT {
+				continue
+			}
+			if gd.Doc != nil {
+				start = gd.Doc.Pos()
+			}
+		}
+		l0, l1 := fset.Position(start).Line, fset.Position(d.End()).Line
+		hit := false
+		for _, ln := range lines {
+			if ln >= l0 && ln <= l1 {
+				hit = true
+			}
+		}
+		if hit {
+			cuts = append(cuts, span{fset.Position(start).Offset, fset.Position(d.End()).Offset})
+			if fd, ok := d.(*ast.FuncDecl); ok {
+				names = append(names, fd.Name.Name)
+			} else {
+				names = append(names, "(declaration)")
+			}
+		}
+	}
+	out := string(src)
+	if len(cuts) == 0 && len(unusedImports) == 0 {
+		return false
+	}
+	for i := len(cuts) - 1; i >= 0; i-- {
+		out = out[:cuts[i].from] + out[cuts[i].to:]
+	}
+	for _, imp := range unusedImports {
+		re := regexp.MustCompile(`(?m)^\s*(\w+\s+)?"` + regexp.QuoteMeta(imp) + `"\s*$\n?`)
+		out = re.ReplaceAllString(out, "")
+		out = strings.Replace(out, "import \""+imp+"\"\n", "", 1)
+	}
+	dir := filepath.Join(verifRoot, ".work", fmt.Sprintf("patched-%d", os.Getpid()), filepath.Base(filepath.Dir(real)))
+	os.MkdirAll(dir, 0o755)
+	dst := filepath.Join(dir, filepath.Base(real))
+	if err := os.WriteFile(dst, []byte(out), 0o644); err != nil {
+		return false
+	}
+	patchedHarness[real] = dst
+	for _, n := range names {
+		droppedHarnessFuncs = append(droppedHarnessFuncs, filepath.Base(real)+":"+n)
+	}
+	return true
+}
+
+// brokenHarnessSites extracts (harness file, line) pairs and unused imports from package load errors.
+func brokenHarnessSites(errText string) (map[string][]int, map[string][]string) {
+	lines := map[string][]int{}
+	unused := map[string][]string{}
+	re := regexp.MustCompile(`(/[^\s:]*/(pkg/[^\s:]*?)/(zz_verif_[A-Za-z0-9_]+\.go)):(\d+):\d+: (.*)`)
+	for _, m := range re.FindAllStringSubmatch(errText, -1) {
+		real := filepath.Join(verifRoot, "harness", m[2], m[3])
+		if _, err := os.Stat(real); err != nil || strings.HasPrefix(m[3], "zz_verif_model_") {
+			continue
+		}
+		if um := regexp.MustCompile(`^"([^"]+)" imported( as \w+)? and not used`).FindStringSubmatch(m[5]); um != nil {
+			unused[real] = append(unused[real], um[1])
+			continue
+		}
+		ln := 0
+		fmt.Sscanf(m[4], "%d", &ln)
+		lines[real] = append(lines[real], ln)
+	}
+	return lines, unused
+}
+
 func harnessGlob(rel string) []string {
 	files, _ := filepath.Glob(filepath.Join(verifRoot, "harness", rel, "*.go"))
 	var out []string
@@ -100,7 +204,7 @@ func harnessDirsFor(prop string) (map[string][]string, error) {
 		if err != nil || info.IsDir() || !strings.HasSuffix(p, ".go") || droppedHarnessFiles[p] {
 			return nil
 		}
-		raw, err := os.ReadFile(p)
+		raw, err := os.ReadFile(harnessSource(p))
 		if err != nil {
 			return nil
 		}
@@ -158,7 +262,7 @@ func allHarnessNames(rel string, extra []string) []string {
 	files := harnessGlob(rel)
 	files = append(files, extra...)
 	for _, f := range files {
-		raw, _ := os.ReadFile(f)
+		raw, _ := os.ReadFile(harnessSource(f))
 		for _, mt := range harnessRe.FindAllStringSubmatch(string(raw), -1) {
 			names = append(names, mt[1])
 		}
@@ -220,7 +324,7 @@ func prepareOverlay(rels []string, workDir string, extra map[string]string) (map
 			return nil, err
 		}
 		for _, f := range harnessGlob(rel) {
-			ov[filepath.Join(repoDir, filepath.Base(f))] = f
+			ov[filepath.Join(repoDir, filepath.Base(f))] = harnessSource(f)
 		}
 	}
 	// native instrumentation of pkg/db (C13 monitor): db.go is overlaid by a copy regenerated from the
